@@ -49,8 +49,10 @@ def prox1 (pen : SepPen α) (wt value stepsize : α) : α :=
   | logsum a e => prox_log_sum value (a * stepsize) e tol8
   | pos => smax 0 value
 
-/-- the summand of `value(w)` for one coordinate (`inf` where an indicator is violated) -/
+/-- the summand of `value(w)` for one coordinate (`inf` where an indicator or the configured
+    positivity constraint is violated) -/
 def pen1 (pen : SepPen α) (wt w : α) : Ext α :=
+  if pen.positive = true ∧ w < 0 then .inf else
   match pen with
   | l1 a _ => .fin (a * sabs w)
   | l1l2 a r _ => .fin (r * a * sabs w + (1 - r) * a / nat 2 * (w * w))
@@ -62,7 +64,7 @@ def pen1 (pen : SepPen α) (wt w : α) : Ext α :=
   | l05 a => .fin (a * Scalar.pow (sabs w) (frac 1 2))
   | l23 a => .fin (a * Scalar.pow (sabs w) (frac 2 3))
   | logsum a e => .fin (a * Scalar.log (1 + sabs w / e))
-  | pos => if w < 0 then .inf else .fin 0
+  | pos => .fin 0
 
 /-- shared shape of the convex-at-zero scores: `w = 0`, level `lvl`, unconstrained -/
 @[inline] def sdZero (grad lvl : α) : α := smax 0 (sabs grad - lvl)
